@@ -2,6 +2,7 @@ package main
 
 import (
 	"fmt"
+	"go/types"
 	"strings"
 
 	"golang.org/x/tools/go/ssa"
@@ -15,6 +16,8 @@ func init() {
 		Explain:   "Decides the durability mechanism of the Raft log storage, not its equivalence with a reference storage. (R1) every Pebble commit/direct write in pkg/raftlog passes pebble.Sync; the group writer creates the only batch, hands that same batch to every writeOp.apply, commits it once, assigns db.stateCache and returns nil only behind Commit == nil, never commits or publishes after a failed apply/load, and the worker sends the flush error of the batch to the done channel of every request of that batch (submitWrite returns exactly that value); every Batch.Set/DeleteRange in the write ops targets the batch parameter; no storage error is dropped. (R2) snapshotStore.read returns data only behind manifest validation, a per-chunk checksum equality before each append, the total-size equality and the whole-checksum equality; a chunk file is accepted only with the exact expected size; a stale snapshot save returns raft.ErrSnapOutOfDate before anything is staged (writer and planner), and a same-index save must match the stored manifest. (R3) chunk files are written by writeSyncedFile (success only behind Write, full length and Sync), the temp directory and its parent are fsynced before the manifest is validated, publishFinal is a RENAME_NOREPLACE rename followed by a parent fsync, and the manifest row is submitted to the Pebble writer only after publishFinal succeeded; the injectable write/fsync hooks are never reassigned outside the test helper, which has no production caller. NOT decided: equivalence with raft.MemoryStorage (InitialState/Entries/Term/FirstIndex/LastIndex contents), the reader-side never-below-the-compaction-point clause (Entries/Term are plain key lookups with no comparison guard to check; Term returns 0,nil for an index it does not hold), cached-tail replacement arithmetic in saveOp.apply, behaviour after an actual crash, Pebble/rename/fsync semantics (trusted).",
 		Run:       c14,
 		Mutants: []Mutant{
+			{Name: "committed-flag-raised-before-commit", File: "pkg/raftlog/pebble_writer.go", Old: "\tif db.writeCommitTestHook != nil {", New: "\tcommitted = true\n\tif db.writeCommitTestHook != nil {", Expect: "C14/R1-commit/*flushWriteRequests#raise the flag*"},
+			{Name: "same-index-save-skips-whole-checksum", File: "pkg/raftlog/pebble_store.go", Old: "|| !bytes.Equal(snapshotChecksum(snap.Data), manifest.WholeChecksum) {", New: "|| !bytes.Equal(snapshotChecksum(snap.Data), snapshotChecksum(snap.Data)) {", Expect: "C14/R2-stale/*planSnapshotSave*WholeChecksum*"},
 			{Name: "commit-nosync", File: "pkg/raftlog/pebble_writer.go", Old: "batch.Commit(pebble.Sync)", New: "batch.Commit(pebble.NoSync)", Expect: "C14/R1-sync/*flushWriteRequests*"},
 			{Name: "persist-meta-nosync", File: "pkg/raftlog/pebble_reader.go", Old: "return s.db.db.Set(encodeGroupStateKey(s.scope), data, pebble.Sync)", New: "return s.db.db.Set(encodeGroupStateKey(s.scope), data, pebble.NoSync)", Expect: "C14/R1-sync/*persistMeta*"},
 			{Name: "statecache-before-commit", File: "pkg/raftlog/pebble_writer.go", Old: "\tif err := batch.Commit(pebble.Sync); err != nil {\n\t\treturn err\n\t}\n\tfor scope, state := range stateCache {\n\t\tdb.stateCache[scope] = cloneScopeWriteState(*state, false)\n\t}\n", New: "\tfor scope, state := range stateCache {\n\t\tdb.stateCache[scope] = cloneScopeWriteState(*state, false)\n\t}\n\tif err := batch.Commit(pebble.Sync); err != nil {\n\t\treturn err\n\t}\n", Expect: "C14/R1-commit/*flushWriteRequests*"},
@@ -136,6 +139,37 @@ func c14DoneSends(c *Ctx, rule string, fn *ssa.Function) {
 	}
 }
 
+// c14DeferFlagRaised: a store of the constant true into a local bool that a deferred closure of fn
+// captures (the "this flush committed" flag the deferred cleanup tests).
+func c14DeferFlagRaised(fn *ssa.Function) Effect {
+	flags := map[ssa.Value]bool{}
+	if fn != nil {
+		for _, b := range fn.Blocks {
+			for _, in := range b.Instrs {
+				d, ok := in.(*ssa.Defer)
+				if !ok {
+					continue
+				}
+				mc, ok := d.Call.Value.(*ssa.MakeClosure)
+				if !ok {
+					continue
+				}
+				for _, bind := range mc.Bindings {
+					if a, ok := bind.(*ssa.Alloc); ok {
+						if bt, ok := a.Type().Underlying().(*types.Pointer).Elem().Underlying().(*types.Basic); ok && bt.Kind() == types.Bool {
+							flags[a] = true
+						}
+					}
+				}
+			}
+		}
+	}
+	return InstrFn{"raise the flag read by the deferred cleanup", func(in ssa.Instruction) bool {
+		st, ok := in.(*ssa.Store)
+		return ok && flags[st.Addr] && c09IsConstTrue(st.Val)
+	}}
+}
+
 func c14(c *Ctx) {
 	const pb = c09Pebble
 	commit := CallTo{pb + "Batch.Commit"}
@@ -177,7 +211,9 @@ func c14(c *Ctx) {
 
 	c.Guard("R1-commit", flush, StoreTo{"*.stateCache[*]", ""}, commitOK)
 	c.Guard("R1-commit", flush, RetNil{}, commitOK)
-	c.Guard("R1-commit", flush, StoreTo{"committed", "true"}, commitOK)
+	// the flag the deferred cleanup reads (a bool captured by the deferred closure) is raised only after
+	// the commit succeeded; the flag is identified by that capture, not by the name of the local
+	c.Guard("R1-commit", flush, c14DeferFlagRaised(flush), commitOK)
 	published := OneOf{commit, StoreTo{"*.stateCache[*]", ""}, RetNil{}}
 	c09AfterEdge(c, "R1-commit", flush, "*writeOp.apply(*) != nil", published, nil)
 	c09AfterEdge(c, "R1-commit", flush, "*loadScopeWriteState(*)#1 != nil", published, nil)
@@ -264,8 +300,30 @@ func c14(c *Ctx) {
 	plan := c.Fn(c14P + "DB.planSnapshotSave")
 	c.Guard("R2-stale", plan, RetNil{}, "!*.hasManifest || snap.Metadata.Index >= *.Index", "*loadSnapshotMetaView(*)#1 == nil")
 	c09AfterEdge(c, "R2-stale", plan, "snap.Metadata.Index < *.Index", RetNil{}, Ret{1, outOfDate})
-	c.Guard("R2-stale", plan, StoreTo{"*.ExistingManifest", ""},
-		"snap.Metadata.Term == *.Term", "*confStateEqual(*) == true", "len(snap.Data) == *.TotalSize", "bytes.Equal(*snapshotChecksum(snap.Data), manifest.WholeChecksum) == true")
+	// ‹kept› = the manifest whose clone is recorded as ExistingManifest (resolved from the stored value):
+	// the same-index snapshot was compared field by field with exactly that manifest
+	if plan != nil {
+		kept := ""
+		for _, in := range instrsMatching(plan, StoreTo{"*.ExistingManifest", ""}) {
+			if st, ok := in.(*ssa.Store); ok {
+				if call, ok := st.Val.(*ssa.Call); ok && calleeName(&call.Call) == c14P+"cloneSnapshotManifestPtr" && len(call.Call.Args) == 1 {
+					if p := Path(call.Call.Args[0]); kept == "" || kept == p {
+						kept = p
+						continue
+					}
+				}
+			}
+			kept = "?"
+			break
+		}
+		if kept == "" || kept == "?" {
+			c.add("shape", "R2-stale", c.P.Name(plan)+"#existing-manifest-source", Violated, c.P.Pos(plan.Pos()), "plan.ExistingManifest is not (only) assigned cloneSnapshotManifestPtr(<one manifest>)")
+		} else {
+			c09GuardRef(c, "R2-stale", plan, StoreTo{"*.ExistingManifest", ""}, map[string]string{"kept": kept},
+				"snap.Metadata.Term == ‹kept›.Term", "*confStateEqual(snap.Metadata.ConfState, ‹kept›.ConfState) == true", "len(snap.Data) == ‹kept›.TotalSize",
+				"bytes.Equal(*snapshotChecksum(snap.Data), ‹kept›.WholeChecksum) == true")
+		}
+	}
 	save := c.Fn(c14P + "pebbleStore.Save")
 	c.Guard("R2-stale", save, OneOf{CallTo{c14P + "DB.submitWrite"}, CallTo{c14P + "DB.publishSnapshotAndCommit"}, CallTo{c14P + "DB.prepareAndWriteSnapshot"}},
 		"*.Snapshot == nil || *planSnapshotSave(*)#1 == nil")
